@@ -85,6 +85,15 @@ func Curated() []*Prog {
 			Tasks: [][]Op{{{K: Pub, Ty: 0, Panic: true}, PubOp(0)}, {PubOp(0)}}},
 		{Name: "once-handler-panics", Pre: []Op{SubOp(0, 0, once), SubOp(0, 1, onceAs), SubOp(0, 2, plain)},
 			Tasks: [][]Op{{{K: Pub, Ty: 0, Panic: true}}, {PubOp(0), CountOp(0)}}},
+		// an asynchronous invocation ends its goroutine with runtime.Goexit: the subscription
+		// stays, later events reach it (a queue behind that invocation moves on)
+		{Name: "async-sequential-invocation-ends-with-goexit", Pre: []Op{SubOp(0, 0, asyncSeq)},
+			Tasks: [][]Op{{{K: Pub, Ty: 0, Goexit: true}, PubOp(0)}, {PubOp(0)}}},
+		{Name: "async-invocation-ends-with-goexit", Pre: []Op{SubOp(0, 0, async), SubOp(0, 1, asyncSeq)},
+			Tasks: [][]Op{{{K: Pub, Ty: 0, Goexit: true}}, {PubOp(0), CountOp(0)}}},
+		// clearing a type that has no handlers while the other type of its shard has some
+		{Name: "clear-of-a-type-without-handlers-in-a-shared-shard", Pre: []Op{SubOp(1, 0, plain)},
+			Tasks: [][]Op{{ClearOp(0), PubOp(1)}, {PubOp(1), CountOp(1)}, {SubOp(1, 1, plain)}}},
 		{Name: "subscribe-while-publishing-to-nobody", Tasks: [][]Op{{SubOp(0, 0, plain), PubOp(0)}, {PubOp(0)}, {SubOp(0, 1, filt), PubOp(0)}}},
 	}
 }
